@@ -98,6 +98,8 @@ def relabellings(ci):
         'large': ci + 10 ** 6,
         'float': ci.astype(float),
         'negative': ci - k - 2,
+        'doubled': ci * 2,                     # does not start at 1 and has gaps
+        'shift_to_n': ci + len(ci) - 1,        # some label equals the number of nodes
         'float_close': 1.0 + ci * 1e-9,      # distinct labels closer than common tolerances
         # labels at the extremes of a signed dtype (differences between neighbours overflow)
         'int8_extremes': np.array([-100, 100, 110, 120, 125, 126, 127][:max(k, 1)], dtype=np.int8)[ci - 1],
